@@ -257,11 +257,11 @@ class Ref:
             seg = t[pos : pos + len(s)]
             if len(seg) != len(s):
                 return None
-            if not seg.isascii() or not s.isascii():
-                if seg == s:
-                    return pos + len(s), stack, []
-                raise Abstain("non-ascii under case-insensitive literal")
-            return (pos + len(s), stack, []) if seg.lower() == s.lower() else None
+            # pest: eq_ignore_ascii_case - only ASCII letters fold, every other character must be equal
+            for a, b in zip(seg, s):
+                if a != b and not (a.isascii() and b.isascii() and a.lower() == b.lower()):
+                    return None
+            return pos + len(s), stack, []
         if k == "builtin":
             return (pos + 1, stack, []) if pos < len(t) and BUILTIN_SETS[e[1]](t[pos]) else None
         if k == "newline":
@@ -371,6 +371,9 @@ class Ref:
 # static analyses on the tuple AST
 
 
+STACK_MAY_HOLD_EMPTY = [False]  # set by generators that push matches of nullable expressions
+
+
 def nullable(e, null_of_rule) -> bool:
     """Conservative: True if e *may* match without consuming input."""
     k = e[0]
@@ -381,8 +384,8 @@ def nullable(e, null_of_rule) -> bool:
     if k in ("soi", "eoi", "opt", "star", "and", "not", "pushlit", "peekall", "popall", "drop", "slice", "max"):
         return True
     if k in ("peek", "pop"):
-        # the generators only ever push non-empty strings
-        return False
+        # unless told otherwise the generators only ever push non-empty strings
+        return STACK_MAY_HOLD_EMPTY[0]
     if k == "ref":
         return null_of_rule(e[1])
     if k == "seq":
